@@ -25,6 +25,7 @@ def gen_history(rng, n):
         r = rng.random()
         if r < 0.30:
             evs.append(rng.choice(["x11:1", "x11:0", "x11:c", "x11:e", "pty:1", "pty:1", "pty:0", "pty:c", "agent", "fwd:1", "fwdz:1",
+                                   "nowait:1", "nowait:1", "nowait:0",
                                    "fwd:0", "fwdz:0", "cancel", "cancel"]))
         elif r < 0.45:
             evs.append("g:%s:%d" % (hx(rng.choice(GLOBAL_KINDS)), rng.random() < 0.7))
@@ -56,9 +57,17 @@ def run_history(ctx, evs):
             parts = ev.split(":")
             if parts[0] == "fwdz":
                 parts = ["fwd"] + parts[1:]
-            if parts[0] in ("x11", "pty", "agent", "fwd", "cancel"):
+            if parts[0] in ("x11", "pty", "agent", "fwd", "cancel", "nowait"):
                 res = pair.action(ev)
                 replies.append("-")
+                if parts[0] == "nowait":
+                    ctx.dist("unwaited-global-request")
+                    if getattr(pair, "unwaited_want_reply", False):
+                        # wire oracle: a request nobody waits for must not solicit a reply - replies are matched to
+                        # waiting callers by order only
+                        ctx.fail("unwaited-global-request-solicits-reply", case,
+                                 "global_request(..., wait=False) went out with want_reply=True")
+                    continue
                 # the oracle's record of what is enabled comes from what the scripted SERVER answered (granted or
                 # denied), not from what the client code under test reported back
                 if parts[0] == "x11" and parts[1] == "1":
@@ -120,7 +129,7 @@ def run(ctx):
 
     L.quiet_logging()
     ctx.rule = ("histories of 1-10 events: client actions {request_x11 / get_pty answered by hand with SUCCESS, FAILURE, CLOSE or "
-                "EOF+CLOSE of the channel (several requests on one session channel), request_forward_agent, "
+                "EOF+CLOSE of the channel (several requests on one session channel), request_forward_agent, un-waited global requests (keepalive style; must go out with want_reply=False), "
                 "request_port_forward granted/denied with an explicit port or port 0 (server-allocated; cancelled under the returned port), cancel_port_forward} mixed with server-initiated GLOBAL_REQUEST (5 "
                 "kinds, with/without want-reply), CHANNEL_OPEN (7 kinds) and CHANNEL_REQUEST (12 types) - each kind occurs "
                 "before and after enable / cancel; plus fixed histories per kind. non-trivial = the history contains a "
@@ -145,6 +154,10 @@ def run(ctx):
         ["pty:1", "pty:1", "x11:c", "o:%s:1" % hx(b"x11")],
         ["pty:c", "x11:c", "o:%s:1" % hx(b"x11"), "agent", "pty:1", "x11:e", "o:%s:2" % hx(b"x11"),
          "o:%s:3" % hx(b"auth-agent@openssh.com")],
+        # un-waited global requests (keepalives) the server would approve, then a port forward it refuses
+        ["nowait:1", "fwd:0", "o:%s:1" % hx(b"forwarded-tcpip"), "nowait:1", "nowait:0", "fwdz:0",
+         "o:%s:2" % hx(b"forwarded-tcpip"), "nowait:1", "fwd:1", "o:%s:3" % hx(b"forwarded-tcpip"), "nowait:1", "cancel",
+         "o:%s:4" % hx(b"forwarded-tcpip")],
         # several forwards cancelled one by one (one shared handler: the first cancel already disables forwarding)
         ["fwd:1", "fwdz:1", "o:%s:1" % hx(b"forwarded-tcpip"), "cancel", "o:%s:2" % hx(b"forwarded-tcpip"), "cancel",
          "o:%s:3" % hx(b"forwarded-tcpip"), "fwdz:1", "cancel", "cancel", "o:%s:4" % hx(b"forwarded-tcpip")],
@@ -165,7 +178,7 @@ def run(ctx):
         acted = False
         nt = False
         for ev in h:
-            if ev.split(":")[0] in ("x11", "pty", "agent", "fwd", "fwdz", "cancel"):
+            if ev.split(":")[0] in ("x11", "pty", "agent", "fwd", "fwdz", "cancel", "nowait"):
                 acted = True
             elif acted:
                 nt = True
